@@ -187,7 +187,8 @@ def step (d : D) (line : String) : D × String :=
   if !d.started && !(line.startsWith "reset") then (d, "bad-op") else
   match words line with
   | "reset" :: mode :: mk :: ms :: fs :: sp =>
-    match mk.toNat?, ms.toNat?, fs.toNat?, parseKeys sp with
+    -- `c:<key>=<value>` tokens are committed data below the transaction (the buffer never reads it): skipped
+    match mk.toNat?, ms.toNat?, fs.toNat?, parseKeys (sp.filter fun t => !t.startsWith "c:") with
     | some a, some b, some c, some splits =>
       if mode == "bare" || mode == "txn" then
         ({ s := init { minKeys := a, minSize := b, forceSize := c, layer := mode == "txn" }, splits := splits, started := true }, "ok")
@@ -268,6 +269,18 @@ def step (d : D) (line : String) : D × String :=
   | ["chk-flush"] => (d, chkFlush d)
   | ["chk-covered"] => (d, chkCovered d)
   | ["chk-range"] => (d, chkRange d)
+  -- a region split behind the client's back: only the layout the range task will meet changes
+  | ["split", k] =>
+    match parseHex k with
+    | some k =>
+      if k.isEmpty then (d, "bad-op")
+      else if !d.s.cfg.layer || d.splits.contains k then (d, "ok")
+      else ({ d with splits := ((k :: d.splits).map fun x => (x, ([] : Bytes))).foldr insertSorted [] |>.map (·.1) }, "ok")
+    | none => (d, "bad-op")
+  -- a region error on the next BufferBatchGet: retried by the client, invisible to the buffer
+  | ["buferr", e] => if e == "notleader" || e == "busy" then (d, "ok") else (d, "bad-op")
+  -- the buffer reads its store tier at the buffer tier, always
+  | ["chk-tier"] => (d, "ok")
   | ["chk-answer"] => (d, chkAnswer d)
   | _ => (d, "bad-op")
 
